@@ -9,6 +9,7 @@ pub mod c03;
 pub mod c04;
 pub mod c05;
 pub mod c06;
+pub mod c10;
 pub mod c11;
 pub mod c12;
 pub mod c13;
@@ -62,6 +63,7 @@ macro_rules! simple_checks {
 }
 
 simple_checks! {
+    "C10" => c10,
     "C11" => c11,
     "C03" => c03,
     "C05" => c05,
